@@ -78,7 +78,9 @@ func sysH(s *simrt.Sim, t *simrt.Task, r *simrt.Req) simrt.Status {
 	}
 	nth := k.opCount[opNames[op]]
 	k.opCount[opNames[op]]++
-	for _, f := range k.cfg.Faults {
+	var applied *Fault
+	for fi := range k.cfg.Faults {
+		f := k.cfg.Faults[fi]
 		if f.Op != "" {
 			if f.Op != opNames[op] || nth < f.At || (nth > f.At && !f.Sticky) {
 				continue
@@ -86,6 +88,7 @@ func sysH(s *simrt.Sim, t *simrt.Task, r *simrt.Req) simrt.Status {
 		} else if f.At != n {
 			continue
 		}
+		applied = &k.cfg.Faults[fi]
 		switch f.Kind {
 		case "crash":
 			s.Faults["crash"]++
@@ -118,6 +121,9 @@ func sysH(s *simrt.Sim, t *simrt.Task, r *simrt.Req) simrt.Status {
 	}
 	if fault != "" {
 		s.Faults[fault+":"+opNames[op]]++
+		if applied != nil {
+			k.Fired = append(k.Fired, FiredFault{N: n, F: *applied})
+		}
 	}
 	r.R0 = ret
 	r.E = int64(errno)
